@@ -115,6 +115,14 @@ class Connective(Condition):
             self._watcher = self._async_trigger()
             __USIM_STATE__.loop.schedule(self._watcher)
 
+    def __unsubscribe__(self, waiter: Coroutine, interrupt: CoreInterrupt):
+        super().__unsubscribe__(waiter, interrupt)
+        if not self._waiting and self._watcher is not None:
+            # nobody is left to be notified: the helper activity ends with its
+            # last subscriber - it must not outlive them, let alone the simulation
+            watcher, self._watcher = self._watcher, None
+            watcher.close()
+
     async def _async_trigger(self):
         try:
             await self.__await_children__()
